@@ -157,13 +157,21 @@ def int_div_subscript(loop, name):
     """AST fact: array `name` is subscripted with an expression containing
     integer division inside the loop."""
     hit = [False]
+    lv = loop[1].lower()
+
+    def uses_lv(x):
+        found = [False]
+        flite.walk_expr(x, lambda y: found.__setitem__(
+            0, found[0] or (y[0] == "var" and y[1].lower() == lv)))
+        return found[0]
 
     def chk(e):
         if e[0] == "arr" and e[1].lower() == name:
             for sb in e[2]:
                 if sb[0] != "rng":
                     flite.walk_expr(sb, lambda x: hit.__setitem__(
-                        0, hit[0] or (x[0] == "bin" and x[1] == "/")))
+                        0, hit[0] or (x[0] == "bin" and x[1] == "/"
+                                      and uses_lv(x))))
 
     def st(s_):
         if s_[0] == "assign":
